@@ -5,6 +5,7 @@ package main
 // Suites fwd-pairs (C16), signout (C11), cookieattrs (C18), nopanic (C19).
 
 import (
+	"encoding/base64"
 	"fmt"
 	"net/http"
 	"net/url"
@@ -44,6 +45,27 @@ func decisionView(e *testEnv, v *respView) string {
 		}
 	}
 	return fmt.Sprintf("%d|%s|%s|%s|%s", v.Status, loc, strings.Join(cks, ","), up, body)
+}
+
+// ticketIDOf: the harness's own decode of a Redis ticket cookie value (no signature check)
+func ticketIDOf(cookieValue string) string {
+	parts := strings.Split(cookieValue, "|")
+	if len(parts) != 3 {
+		return ""
+	}
+	raw, err := base64.URLEncoding.DecodeString(parts[0])
+	if err != nil {
+		return ""
+	}
+	tp := strings.Split(string(raw), ".")
+	if len(tp) != 3 {
+		return ""
+	}
+	id, err := base64.RawURLEncoding.DecodeString(tp[1])
+	if err != nil {
+		return ""
+	}
+	return string(id)
 }
 
 var fwdHeaderSets = []http.Header{
@@ -198,13 +220,36 @@ func init() {
 									c.violation("HARNESS", "login failed in signout suite", fmt.Sprintf("%+v", cfg))
 									continue
 								}
+								// Redis history bookkeeping for the `rhist` model comparison
+								tnum := map[string]int{}
+								tn := func(id string) int {
+									if _, ok := tnum[id]; !ok {
+										tnum[id] = len(tnum) + 1
+									}
+									return tnum[id]
+								}
+								sid := map[string]int{u.Sub: 1, big.Sub: 2}
+								var hops []string
+								curT := ticketIDOf(b.jar[e.opts.Cookie.Name])
+								if redis {
+									hops = append(hops, fmt.Sprintf("L:-:%d:%d", tn(curT), sid[first.Sub]))
+									hops = append(hops, fmt.Sprintf("Q:%d", tn(curT)))
+								}
 								// a few requests; force one refresh in between (refresh period 1 s) for one variant
 								e.do(reqSpec{Target: "/app/a", Cookie: b.cookieHeader()})
 								if grow != "small" {
 									// re-login as the other size in the same browser (session grows / shrinks)
+									prevT := curT
 									lr2 := e.login(b, second, "/app/home")
 									if !lr2.OK {
 										c.count("signout:relogin-failed")
+									}
+									curT = ticketIDOf(b.jar[e.opts.Cookie.Name])
+									if redis {
+										hops = append(hops, fmt.Sprintf("L:%d:%d:%d", tn(prevT), tn(curT), sid[second.Sub]))
+										if curT == prevT {
+											c.count("signout:ticket-reused")
+										}
 									}
 								}
 								r1 := e.do(reqSpec{Target: "/app/b", Cookie: b.cookieHeader()})
@@ -267,6 +312,21 @@ func init() {
 								}
 								// replay every cookie the browser ever held: never authenticated again (server-side store)
 								if redis {
+									hops = append(hops, fmt.Sprintf("O:%d", tn(curT)))
+									for id, num := range tnum {
+										// which session does a cookie with this ticket load now? (any cookie ever held with that ticket)
+										got := "none"
+										for _, h := range b.history {
+											if h.Name == e.opts.Cookie.Name && ticketIDOf(h.Value) == id {
+												r2 := e.do(reqSpec{Target: "/app/replay-t", Cookie: h.Name + "=" + h.Value})
+												if len(r2.Hits) > 0 {
+													got = fmt.Sprintf("some:%d", sid[r2.Hits[0].Header.Get("X-Forwarded-User")])
+												}
+												break
+											}
+										}
+										c.emit(got, "rhist", strings.Join(hops, ","), is(num))
+									}
 									replay := map[string]string{}
 									for _, h := range b.history {
 										replay[h.Name+"\x00"+h.Value] = h.Name + "=" + h.Value
@@ -344,6 +404,7 @@ func init() {
 								c.violation("HARNESS", "env: "+err.Error(), fmt.Sprintf("%+v", cfg))
 								continue
 							}
+							e.emitCookieOps = true
 							for _, host := range hosts {
 								for _, usr := range []idpUser{u, big} {
 									// drive the full flow with this Host; the universal monitor (monitorCookies) checks every Set-Cookie
